@@ -231,6 +231,9 @@ def decrypt_recipient(
         recipient: Recipient[t.Any],
         tag: bytes) -> bytes:
     cek: bytes
+    if recipient.encrypted_key is None and not alg.direct_mode:
+        # a JSON recipient without "encrypted_key" (an ``assert`` is no guard: python -O removes it)
+        raise DecodeError("Invalid recipient")
     if alg.direct_mode:
         # 10.  When Direct Key Agreement or Direct Encryption are employed,
         # verify that the JWE Encrypted Key value is an empty octet
